@@ -481,6 +481,18 @@ def judge(ctx, where, labels, res, exc, sigbase, reproduce):
     ctx.note(sigbase + (where[1], labels, "ok"), klass=None)
 
 
+def refusal_stable(ctx, where, labels, first_exc, again, reproduce):
+    """A request that was refused with a documented exception is refused again when it is repeated on the same object (a refusal must
+    not leave a half-built answer behind that the next call hands out)."""
+    if first_exc is None or B.classify_exception(first_exc)[0] in B.FLAGGED or B.classify_exception(first_exc)[0] == "harness":
+        return
+    res, exc = ctx.call(guarded, again)
+    ctx.check("api.refusal-stable", exc is not None and type(exc) is type(first_exc), key=(where[0], where[1], type(first_exc).__name__,
+                                                                                          "answered" if exc is None else type(exc).__name__),
+              member=".".join(where), args=list(labels), first=repr(first_exc)[:200], second=repr(exc)[:200] if exc else None,
+              second_result=B.safe_repr(res) if exc is None else None, call=reproduce)
+
+
 def curated_calls(obj, frame):
     """Operations that are public but not plain named members: the data-model protocol the class itself defines
     (len / str / repr / hash / == / iteration / ordering / pickling via __getstate__), the static constructors driven with
@@ -589,6 +601,7 @@ def sweep(ctx, obj, fr, aseed, budget, sigbase, only=None):
         if kind in ("prop", "data"):
             res, exc = ctx.call(guarded, getattr, obj, name)
             judge(ctx, where, ("get",), res, exc, sigbase, {"get": name})
+            refusal_stable(ctx, where, ("get",), exc, lambda: getattr(obj, name), {"get": name})
             continue
         sets = arg_sets(frame, owner, name, fn, kind, rng, budget)
         if sets is None:
@@ -602,4 +615,6 @@ def sweep(ctx, obj, fr, aseed, budget, sigbase, only=None):
             continue
         for labels, args, kwargs in sets:
             res, exc = ctx.call(guarded, bound, *args, **kwargs)
-            judge(ctx, where, labels, res, exc, sigbase, {"call": name, "args": [repr(a)[:80] for a in args], "kwargs": {k: repr(v)[:80] for k, v in kwargs.items()}})
+            rep = {"call": name, "args": [repr(a)[:80] for a in args], "kwargs": {k: repr(v)[:80] for k, v in kwargs.items()}}
+            judge(ctx, where, labels, res, exc, sigbase, rep)
+            refusal_stable(ctx, where, labels, exc, lambda: bound(*args, **kwargs), rep)
